@@ -44,6 +44,9 @@ type Config struct {
 	GSTBump bool
 	// Crashed validators never fire a timer and never receive a message.
 	Crashed []int
+	// KeepZero: members with voting power 0 stay in the committee list (attribution part of C14); elsewhere power 0 means
+	// "not a member".
+	KeepZero bool
 	// Late: Search 1 also offers the round scenarios in which a leader message arrives AFTER the phase timeout that
 	// would have used it (stored, not acted on) and the rounds in which nothing fresh is delivered while somebody still
 	// collects votes; the state key then includes the stored leader messages (see lateConfigs).
@@ -231,7 +234,7 @@ func (c *mockCtl) LoadCommittee(_, rh uint64) (lib.ValidatorSet, lib.ErrorI) {
 	if c.w.vs == nil {
 		base := &lib.ConsensusValidators{}
 		for _, v := range c.w.Vals.ValidatorSet {
-			if v.VotingPower > 0 {
+			if v.VotingPower > 0 || c.w.Cfg.KeepZero {
 				base.ValidatorSet = append(base.ValidatorSet, v)
 			}
 		}
